@@ -230,6 +230,7 @@ CHECK_DEADLOCK FALSE
     ctx.add_trace_verdict('LogicBlocksTrace', v, len(traces))
     ctx.coverage['configs_exercised'] = sorted({j[1] for j in jobs})
     ctx.sample({'kind': 'logic-block-trace', 'cfg': traces[0]['cfg'], 'trace': traces[0]['ev'][:10]})
+    tlc.finish_diagnosis(wd, 'LogicBlocksTrace', 'Trace.cfg', traces, v)
     for i, info in sorted(v.rejected.items()):
         if info.get('line') is None:
             continue
